@@ -346,16 +346,23 @@ func (sf *schemafier) schemafy(attr *expr.AttributeExpr, noref ...bool) *openapi
 		s.Maximum = val.Maximum
 	}
 	if val.MinLength != nil {
-		if _, ok := attr.Type.(*expr.Array); ok {
+		switch attr.Type.(type) {
+		case *expr.Array:
 			s.MinItems = val.MinLength
-		} else {
+		case *expr.Map:
+			// minLength only applies to strings
+			s.MinProperties = val.MinLength
+		default:
 			s.MinLength = val.MinLength
 		}
 	}
 	if val.MaxLength != nil {
-		if _, ok := attr.Type.(*expr.Array); ok {
+		switch attr.Type.(type) {
+		case *expr.Array:
 			s.MaxItems = val.MaxLength
-		} else {
+		case *expr.Map:
+			s.MaxProperties = val.MaxLength
+		default:
 			s.MaxLength = val.MaxLength
 		}
 	}
